@@ -433,6 +433,24 @@ class _Canon(ast.NodeTransformer):
     """Canonicalise spellings that do not change behaviour, so that rules see one
     form: `x = x op e` (and `x = e op x` for + and *) becomes `x op= e`."""
 
+    def generic_visit(self, n):
+        super().generic_visit(n)
+        # drop no-op statements (bare constants that are not docstrings, `pass` next to real statements)
+        for f in ('body', 'orelse', 'finalbody'):
+            b = getattr(n, f, None)
+            if isinstance(b, list) and b and isinstance(b[0], ast.stmt):
+                keep_doc = f == 'body' and isinstance(n, (ast.Module, ast.FunctionDef, ast.AsyncFunctionDef, ast.ClassDef))
+                nb = []
+                for i, st in enumerate(b):
+                    noop = (isinstance(st, ast.Expr) and isinstance(st.value, ast.Constant)
+                            and not (keep_doc and i == 0 and isinstance(st.value.value, str))) or isinstance(st, ast.Pass)
+                    if not noop:
+                        nb.append(st)
+                if not nb:
+                    nb = [b[-1]] if not (keep_doc and len(b) > 1) else b[:1]
+                setattr(n, f, nb)
+        return n
+
     def visit_Assign(self, n):
         self.generic_visit(n)
         if len(n.targets) == 1 and isinstance(n.targets[0], (ast.Name, ast.Attribute, ast.Subscript)) \
